@@ -233,7 +233,24 @@ fn gen_args(name: &str, rng: &mut Rng) -> Vec<A> {
     match name {
         "abs" | "ceil" | "floor" => vec![A::V(num(rng))],
         "avg" | "sum" => vec![A::V(nums(rng))],
-        "contains" => match rng.below(3) {
+        "contains" => match rng.below(4) {
+            3 => {
+                // a needle that is a DIFFERENT number of the same sign and a similar, very large or very
+                // small magnitude as an element (well separated: the tolerant `==` must still say no)
+                let pairs = [(1e308, 9e307), (1.7e308, 1.1e308), (-1e308, -9e307), (1e-308, 2e-308), (5e-324, 1e-323), (1e300, 2e300), (9e307, 9e307)];
+                let (a, b) = pairs[rng.below(pairs.len())];
+                CLOSE_USED.with(|c| c.set(true));
+                let mut xs: Vec<Value> = (0..rng.below(4)).map(|_| json!(rng.range(0, 5))).collect();
+                let at = rng.below(xs.len() + 1);
+                xs.insert(at, f(a));
+                let wrap = rng.below(3);
+                let (arr, needle) = match wrap {
+                    0 => (Value::Array(xs), f(b)),
+                    1 => (Value::Array(vec![Value::Array(xs.clone()), json!(1)]), Value::Array({ let mut y = xs.clone(); y[at] = f(b); y })),
+                    _ => (Value::Array(vec![json!({"k": f(a)})]), json!({"k": f(b)})),
+                };
+                vec![A::V(arr), A::V(needle)]
+            }
             0 => {
                 let a = if rng.chance(1, 2) { nums(rng) } else { Value::Array((0..rng.below(6)).map(|_| gen_doc(rng, 2)).collect()) };
                 let needle = match a.as_array() {
